@@ -523,11 +523,36 @@ def run(ctx) -> None:
     ctx.rule("C11.variants", "T5: all string/file variants go through model_to_dict / model_from_dict", floor=8)
     ctx.rule("C12.state", "T7: pickle blank/restore pairing (shared with C12)", floor=7)
     ctx.rule("C02.owner", "T1: loaded objects belong to the model (shared with C02)", floor=9)
-    check_keys(ctx)
+    from . import ioform
+
+    ctx.rule("C11.roundtrip", "finite evaluation: model_from_dict(model_to_dict(m)) says what m said; the dict is JSON-representable, not consumed, reproduced by a second trip", floor=1)
+    n0, d0 = len(ctx.findings), len(ctx.deferred)
+    ctx.guard(ioform.check_roundtrip, ctx, "C11.roundtrip")
+    roundtrip_failed = len(ctx.findings) > n0 or len(ctx.deferred) > d0
+    # The structural reading of the key tables, of the bounds handling and of the defaults explains what the evaluated
+    # round trip decides: its reports are issued when the round trip is found wrong as well (or could not be
+    # evaluated). The objective direction (K6) is not part of the evaluated round trip and is always read.
+    held = []
+    real_bad = ctx.bad
+    ctx.bad = lambda *a, **k: (real_bad(*a, **k) if a and a[0] == "C11.direction" else held.append((a, k)))  # type: ignore[method-assign]
+    try:
+        check_keys(ctx)
+        check_bounds(ctx)
+        check_defaults(ctx)
+    except AnalysisError as exc:
+        if roundtrip_failed:
+            ctx.defer(str(exc))
+        else:
+            ctx.note(f"structural reading skipped ({exc}); the evaluated round trip decides")
+    finally:
+        del ctx.bad
+    for a, k in held:
+        if roundtrip_failed:
+            ctx.bad(*a, **k)
+        else:
+            ctx.note(f"structural reading not confirmed by the evaluated round trip (no report): {a[0]} {a[3] if len(a) > 3 else ''}"[:300])
     ctx.guard(check_objective, ctx)
     ctx.guard(check_stateless_yaml, ctx)
-    check_bounds(ctx)
-    check_defaults(ctx)
     check_fixtype(ctx)
     check_variants(ctx)
     ctx.guard(check_id_reassign, ctx)
